@@ -17,6 +17,8 @@ case "$CFG" in
   sse2)      ;;
   sse2-rel)  OVF="-Coverflow-checks=off" ;;
   sse2-fma)  EXTRA="-Ctarget-feature=+fma,+avx,+avx2,+sse4.1,+sse4.2" ;;
+  sse41)     EXTRA="-Ctarget-feature=+sse3,+ssse3,+sse4.1,+sse4.2" ;;
+  sse2-dbg)  BASE="-Zmir-opt-level=0 -Awarnings -Cdebug-assertions=on" ;;
   fastmath)  FEAT="--features fast-math"; EXTRA="-Ctarget-feature=+fma,+avx,+avx2,+sse4.1,+sse4.2" ;;
   scalar)    FEAT="--features scalar-math" ;;
   coresimd)  FEAT="--features core-simd" ;;
